@@ -110,7 +110,7 @@ theorem J_emitSwitchOp {L : Nat} {c p : St} (h : Rel L c p) : J L c.emitSwitchOp
 macro_rules | `(tactic| rel_close) => `(tactic| ((with_reducible show Rel _ (St.leave _ _ _) (St.leave _ _ _)); refine Rel.leave ?_ _ _ _ _; rel_close))
 
 theorem ms_try (b : Node) (c : Node) (ih1 : MSP b) (ih2 : MSP c) : MSP (.try_ b c) := by
-  refine ⟨fun hpl => ?_, fun hpl => ?_, fun hpl => ?_⟩ <;> intro L c0 p0 h
+  refine MSP.of3 _ (fun hpl => ?_) (fun hpl => ?_) (fun hpl => ?_) (by intro hh; simp [Node.evOk] at hh) <;> intro L c0 p0 h
   · simp only [emit]
     ms_steps
     rename_i hr
@@ -126,7 +126,7 @@ theorem ms_try (b : Node) (c : Node) (ih1 : MSP b) (ih2 : MSP c) : MSP (.try_ b 
   · simp only [emitAssign]; ms_steps
 
 theorem ms_switch (e : Node) (b : Node) (ih1 : MSP e) (ih2 : MSP b) : MSP (.switch e b) := by
-  refine ⟨fun hpl => ?_, fun hpl => ?_, fun hpl => ?_⟩ <;> intro L c0 p0 h
+  refine MSP.of3 _ (fun hpl => ?_) (fun hpl => ?_) (fun hpl => ?_) (by intro hh; simp [Node.evOk] at hh) <;> intro L c0 p0 h
   · simp only [emit]
     ms_steps
     rename_i hr
